@@ -169,7 +169,6 @@ func (x *Exec) doAlloc(st *State, i *ssa.Alloc) {
 func (x *Exec) doUnOp(st *State, i *ssa.UnOp) {
 	switch i.Op {
 	case token.MUL:
-		x.heldCheckAddr(st, i.X, i, false)
 		x.setReg(st, i, x.load(st, x.val(st, i.X), i.Type(), i))
 	case token.NOT:
 		x.setReg(st, i, Scalar{Not(x.scalar(st, i.X)), i.Type()})
